@@ -110,10 +110,14 @@ def build_model():
         return rc == 0, out
 
 
-def build_harness():
+def build_harness(race=False):
     with Lock('go'):
-        rc, out = sh([os.path.join(VERIF, 'harness', 'build.sh')], env=GOENV, timeout=1200)
+        env = dict(GOENV, VERIF_RACE='1') if race else GOENV
+        rc, out = sh([os.path.join(VERIF, 'harness', 'build.sh')], env=env, timeout=1800)
         return rc == 0, out
+
+
+HARNESS_RACE = os.path.join(VERIF, 'harness', 'bin', 'harness-race')
 
 
 def scan_forbidden():
@@ -194,7 +198,7 @@ def _read_results(path, res):
             res[line[:i]] = line[i + 1:]
 
 
-def _run_go_shard(cases_path, out_path, timeout_ms, total_timeout):
+def _run_go_shard(cases_path, out_path, timeout_ms, total_timeout, binary=None):
     """Run one shard, restarting after a crash/timeout of the process."""
     res = {}
     if os.path.exists(out_path):
@@ -205,12 +209,12 @@ def _run_go_shard(cases_path, out_path, timeout_ms, total_timeout):
             if line.startswith('(case '):
                 ids.append(line.split(' ', 3)[1])
     skip = 0
-    env = dict(GOENV, HARNESS_CASE_TIMEOUT_MS=str(timeout_ms))
+    env = dict(GOENV, HARNESS_CASE_TIMEOUT_MS=str(timeout_ms), GORACE='halt_on_error=1 exitcode=66')
     t0 = time.time()
     crashes = 0
     while skip < len(ids):
         try:
-            p = subprocess.run([HARNESS, 'run', cases_path, out_path, str(skip)], env=env,
+            p = subprocess.run([binary or HARNESS, 'run', cases_path, out_path, str(skip)], env=env,
                                stdout=subprocess.PIPE, stderr=subprocess.PIPE,
                                timeout=max(10, total_timeout - (time.time() - t0)))
             rc, err = p.returncode, p.stderr.decode('utf-8', 'replace')
@@ -230,7 +234,10 @@ def _run_go_shard(cases_path, out_path, timeout_ms, total_timeout):
         if crashed not in res:
             kind = 'crash'
             tail = err[-400:].replace('\n', ' | ')
-            if 'stack overflow' in err or 'goroutine stack exceeds' in err:
+            if 'DATA RACE' in err:
+                kind = 'data-race'
+                tail = err[:1500].replace('\n', ' | ')
+            elif 'stack overflow' in err or 'goroutine stack exceeds' in err:
                 kind = 'stack-overflow'
             elif rc == 124:
                 kind = 'hang'
@@ -244,7 +251,7 @@ def _run_go_shard(cases_path, out_path, timeout_ms, total_timeout):
     return res
 
 
-def run_go(cases, name, workdir, shards=None, timeout_ms=10000, total_timeout=3000):
+def run_go(cases, name, workdir, shards=None, timeout_ms=10000, total_timeout=3000, binary=None):
     """cases: list of case strings.  Returns dict id -> result string."""
     from concurrent.futures import ThreadPoolExecutor
     os.makedirs(workdir, exist_ok=True)
@@ -259,7 +266,7 @@ def run_go(cases, name, workdir, shards=None, timeout_ms=10000, total_timeout=30
         jobs.append((cp, op))
     res = {}
     with ThreadPoolExecutor(max_workers=shards) as ex:
-        for r in ex.map(lambda j: _run_go_shard(j[0], j[1], timeout_ms, total_timeout), jobs):
+        for r in ex.map(lambda j: _run_go_shard(j[0], j[1], timeout_ms, total_timeout, binary), jobs):
             res.update(r)
     return res
 
@@ -412,7 +419,7 @@ def load_findings():
 
 # ---------------------------------------------------------------- standard phases
 
-def standard_build(ctx, need_model=True, need_harness=True):
+def standard_build(ctx, need_model=True, need_harness=True, theorems=True):
     """Build everything for a check; records build obligations.  Returns dict of booleans."""
     ok_coq, coq_log, tok, tlog = build_coq()
     ctx.oblige('translator: Generated/*.v regenerated from /repo', 'translator', tok, '' if tok else tlog[-1500:])
@@ -420,7 +427,9 @@ def standard_build(ctx, need_model=True, need_harness=True):
     hits = scan_forbidden()
     ctx.oblige('coq: no Admitted/admit/Axiom/Parameter/Conjecture/guard switches in theories/', 'hygiene', not hits, '; '.join(hits[:10]))
     res = dict(coq=ok_coq, translator=tok, coq_log=coq_log)
-    if ok_coq:
+    if not theorems:
+        ctx.level = 'exploration'
+    if ok_coq and theorems:
         obs, raw = property_obligations(ctx.prop)
         if not obs:
             ctx.oblige('Properties/%s.v present' % ctx.prop, 'theorem', False, raw[-500:])
